@@ -19,9 +19,16 @@ impl GC {
         }
     }
 
+    /// Adds the given object to the list of objects to manage,
+    /// unless it is an immediate value or it is managed already
     #[inline]
     pub fn maybe_trace(&mut self, o: Object) {
-        if o.is_heap_allocated() {
+        if o.is_heap_allocated()
+            && !self
+                .objects
+                .iter()
+                .any(|a| std::ptr::eq(a.as_ptr(), o.as_ptr()))
+        {
             self.objects.push(o);
             self.mark_bitmap.reserve(1);
         }
